@@ -276,6 +276,23 @@ def mon_c03(h, sc, obs):
                     why = why_open(h, sc, facts, k, closer)
                     out.append(V('C03', 'open-after-end', f"{term[0]['state']}:{t['kind']}:{why}:{h.race_tag(pid)}",
                                  f"pid {pid} ended {term[0]['state']} but {t['kind']} {t['nid']} ({k[1]}) is {t['state']} [{why}]"))
+    # (e) "so nothing can later be acted on": after the terminal event the process is dropped from the cache and every act
+    #     task of the reloaded process is tried (probe_acts).  A task that memory showed terminal and that can be acted on
+    #     after the reload was closed in memory only
+    for o in h.ops:
+        if o.get('op') != 'probe_acts' or not isinstance(o.get('res'), dict):
+            continue
+        pid = sc['ops'][o['i']].get('pid', 'p1')
+        term = [e for e in cbs.get(pid, []) if e['what'] != 'start' and e['seq'] < o['seq']]
+        if not o['res'].get('ended') or not term:
+            continue
+        obs['c03.acts-probed-after-end'] += o['res'].get('tried', 0)
+        for a in o['res'].get('accepted') or []:
+            t = final.get((pid, a['tid']))
+            if t is not None and t['state'] in TERM:
+                out.append(V('C03', 'acted-on-after-end', f"{term[0]['state']}:revived-by-reload:{t['state']}->{a['state']}", f"pid {pid} ended {term[0]['state']}; after a reload from the store act {a['nid']} ({a['tid']}) is {a['state']} again (memory said {t['state']}) and a client action on it is accepted"))
+            else:
+                obs['c03.acted-on-after-end:left-open'] += 1     # reported by (d) with its cause
     return out
 
 
@@ -540,6 +557,30 @@ def stranded_reason(h, pid, p, opens):
         return 'task-left-ready'
     kinds = sorted({t['kind'] for t in opens if t['state'] == 'running'})
     return 'running-with-nothing-open:' + '+'.join(kinds)
+
+
+def mon_c08_mirror(h, sc, obs):
+    """several clients subscribed with the same filter: each first-time message reaches each of them exactly once"""
+    out = []
+    chans = [c['id'] for c in sc.get('channels') or []]
+    if len(chans) < 2:
+        return out
+    per = {c: collections.Counter() for c in chans}
+    desc = {}
+    for d in h.delivers:
+        if d['chan'] in per and d.get('retry', 0) == 0:
+            per[d['chan']][d['id']] += 1
+            desc[d['id']] = f"{d['type']}/{d['state']}/{d['nid']}"
+    ids = set().union(*[set(c) for c in per.values()])
+    obs['c08.mirrored-messages'] += len(ids)
+    for c in chans:
+        miss = sorted(desc[i] for i in ids if per[c][i] == 0)
+        twice = sorted(desc[i] for i in ids if per[c][i] > 1)
+        if miss:
+            out.append(V('C08', 'message-missing-on-one-client', f"{c}:{sc['engine'].get('store', 'mem')}", f"channel {c} did not receive {len(miss)} of {len(ids)} messages that another client with the same filter received, e.g. {miss[:3]}"))
+        if twice:
+            out.append(V('C08', 'message-twice-on-one-client', f"{c}:{sc['engine'].get('store', 'mem')}", f"channel {c} received {twice[:3]} more than once"))
+    return out
 
 
 # --------------------------------------------------------------------------- C11
